@@ -110,6 +110,33 @@ def fam_boundary(tier, seed, n):
     return scenes.boundary_descs(seed, n), None
 
 
+def fam_limit(tier, seed, n):
+    """ two decks whose distance lies between the separations of two neighbouring bins, the upper one with an interpolated base a
+    fraction of a foot above / below / exactly at the limit between the bins (integer heights, the percentile interpolates) """
+    import random
+    out = []
+    confs = [({}, 10000, 250, 1000), ({'MIN_SEP_VALS': [100, 700], 'MIN_SEP_LIMS': [2000]}, 2000, 100, 700),
+             ({'MIN_SEP_VALS': [250, 600, 1000], 'MIN_SEP_LIMS': [3000, 5000]}, 5000, 600, 1000)]
+    for i in range(n):
+        rng = random.Random(f'limit:{seed}:{i}')
+        prms, L, slo, shi = confs[i % len(confs)]
+        prms = dict(prms, MAX_HITS_OKTA0=0)
+        nh = [5, 9, 11, 13, 17, 21][(i // 3) % 6]            # 5th percentile at virtual index 0.2, 0.4, 0.5, 0.6, 0.8, 1.0
+        side = [0, 0, -1, 0, -2][(i // 18) % 5]                # lowest hit at the limit, one or two feet below it
+        step = rng.choice([1, 1, 2])
+        d = rng.choice([slo + 50, (slo + shi) // 2, shi - 1, shi, shi + 1])
+        rows = []
+        for t in range(nh):
+            dt = -15.0 * (nh - 1 - t)
+            up = L + side + (0 if t == nh // 2 else step + (t % 3))
+            rows.append(['a', dt, L + side - d + (t % 2), 1])
+            rows.append(['a', dt, up, 2])
+        if rng.random() < 0.3:
+            rows.reverse()
+        out.append({'family': 'F3g', 'name': f'limit:{seed}:{i}', 'rows': rows, 'prms': prms, 'indomain': True})
+    return out, None
+
+
 def fam_stress(tier, seed, n):
     """ real-size stress scenes: > 100 slices with a dense two-level group lowest (layer-id space),
     many groups, many layers """
@@ -193,8 +220,8 @@ PLANS = {
                             ('excl', dict(invariants=['Inv_C06g'], prmset='PrmPinM', ceilos=('a', 'b'), nt=2, lattice='LatticeE', maxper=1)),
                             ('pinned_merge', dict(invariants=['Inv_C06g'], prmset='PrmPinM', ceilos=('a', 'b'), nt=2, lattice='LatticeE', maxper=1, merge_excl=False), 'Inv_C06g'),
                             ('pinned_order', dict(invariants=['Inv_C06l'], prmset='PrmPinO', ceilos=('a',), nt=4, lattice='LatticeF', maxper=2, orders=('desc',), gmm_time=False), 'Inv_C06l')]},
-        'families': {'quick': [('F3', fam_bands, 500), ('F3b', fam_split, 300), ('F3d', fam_tiesplit, 144), ('Rneg', fam_negative, 160), ('Rtiny', fam_rand('tiny'), 250), ('Rmid', fam_rand('mid'), 60)],
-                     'thorough': [('F3', fam_bands, None), ('F3b', fam_split, None), ('F3d', fam_tiesplit, 2500), ('Rneg', fam_negative, 2000), ('Rtiny', fam_rand('tiny'), 4000), ('Rmid', fam_rand('mid'), 800), ('Rbig', fam_rand('big'), 60)]},
+        'families': {'quick': [('F3', fam_bands, 500), ('F3b', fam_split, 300), ('F3d', fam_tiesplit, 144), ('F3g', fam_limit, 180), ('Rneg', fam_negative, 160), ('Rtiny', fam_rand('tiny'), 250), ('Rmid', fam_rand('mid'), 60)],
+                     'thorough': [('F3', fam_bands, None), ('F3b', fam_split, None), ('F3d', fam_tiesplit, 2500), ('F3g', fam_limit, 2700), ('Rneg', fam_negative, 2000), ('Rtiny', fam_rand('tiny'), 4000), ('Rmid', fam_rand('mid'), 800), ('Rbig', fam_rand('big'), 60)]},
         'marks': ['N_merge', 'N_2groups', 'N_sepbin2', 'N_noremerge', 'N_split', 'N_split3'],
         'seed_shift': 19,
     },
